@@ -32,31 +32,31 @@ func propHash(id string) uint64 {
 
 // Summary is what one worker reports.
 type Summary struct {
-	Prop          string          `json:"prop"`
-	Shard         int             `json:"shard"`
-	Runs          int             `json:"runs"`
-	Nontrivial    int             `json:"nontrivial"`
-	Hashes        []uint64        `json:"hashes"` // distinct trace hashes of non-trivial runs (capped)
-	HashesCapped  bool            `json:"hashes_capped"`
-	Steps         int64           `json:"steps"`
-	Switches      int64           `json:"switches"`
-	SimSeconds    float64         `json:"sim_seconds"`
-	Quiescences   int             `json:"quiescences"`
-	Probes        map[string]int  `json:"probes"`
-	Faults        map[string]int  `json:"faults"`
-	SwitchPairs   map[string]bool `json:"switch_pairs"`
-	Inconclusive  int             `json:"inconclusive"`
-	Adoptions     int             `json:"adoptions"`
-	Violations    []ViolationRec  `json:"violations"`
-	HarnessErrors []string        `json:"harness_errors"`
+	Prop          string            `json:"prop"`
+	Shard         int               `json:"shard"`
+	Runs          int               `json:"runs"`
+	Nontrivial    int               `json:"nontrivial"`
+	Hashes        []uint64          `json:"hashes"` // distinct trace hashes of non-trivial runs (capped)
+	HashesCapped  bool              `json:"hashes_capped"`
+	Steps         int64             `json:"steps"`
+	Switches      int64             `json:"switches"`
+	SimSeconds    float64           `json:"sim_seconds"`
+	Quiescences   int               `json:"quiescences"`
+	Probes        map[string]int    `json:"probes"`
+	Faults        map[string]int    `json:"faults"`
+	SwitchPairs   map[string]bool   `json:"switch_pairs"`
+	Inconclusive  int               `json:"inconclusive"`
+	Adoptions     int               `json:"adoptions"`
+	Violations    []ViolationRec    `json:"violations"`
+	HarnessErrors []string          `json:"harness_errors"`
 	Samples       []json.RawMessage `json:"samples"`
-	WallS         float64         `json:"wall_s"`
-	MutexBlocks   int64           `json:"mutex_blocks"`
-	SelectMulti   int64           `json:"select_blocks"`
-	Tasks         int             `json:"tasks"`
-	Rule          string          `json:"rule"`
-	Real          []string        `json:"real"`
-	Stub          []string        `json:"stub"`
+	WallS         float64           `json:"wall_s"`
+	MutexBlocks   int64             `json:"mutex_blocks"`
+	SelectMulti   int64             `json:"select_blocks"`
+	Tasks         int               `json:"tasks"`
+	Rule          string            `json:"rule"`
+	Real          []string          `json:"real"`
+	Stub          []string          `json:"stub"`
 }
 
 // ViolationRec is one violation found by a worker.
